@@ -9,44 +9,44 @@ Thread `i` plays member `i`: it greets, delivers any number of data, then possib
 starts when the sink has subscribed and every member has been subscribed (`start`). Every member count `n`, all scripts.
 
 Observations proved beside the theorems (not covered by the property's text, recorded in DESIGN.md §5): under a race the sink can
-receive `Data` before its `Handshake` (`Merge.merge_par_data_before_greet`), and with a failing member a data delivery already in
-flight can reach the sink after the `Error` (`Merge.merge_par_data_after_error`).
+receive `Data` before its `Handshake` (`MergePar.merge_par_data_before_greet`), and with a failing member a data delivery already in
+flight can reach the sink after the `Error` (`MergePar.merge_par_data_after_error`).
 -/
 namespace Cb.Thm
 
 /-- merge!, at most one member failing: the sink is greeted at most once, receives at most one terminal message, nothing panics -/
 theorem C18_merge_exactly_once {α : Type} (n : Nat) (fails : Bool) (ths : List (Thread (Merge.Loc α) α α))
-    (h : Merge.Members n fails ths) (h1 : Merge.nFail ths ≤ 1) :
-    ∀ s, PReach (Merge.machine α n) (Merge.start n ths) s →
+    (h : MergePar.Members n fails ths) (h1 : MergePar.nFail ths ≤ 1) :
+    ∀ s, PReach (Merge.machine α n) (MergePar.start n ths) s →
       s.obs.greets ≤ 1 ∧ s.obs.terms + s.obs.errs ≤ 1 ∧ s.obs.panics = 0 ∧ (fails = false → s.obs.errs = 0) :=
-  Merge.merge_par_safe_one n fails ths h h1
+  MergePar.merge_par_safe_one n fails ths h h1
 
 /-- merge!, no failing member: completion is delivered only after every data delivery has returned, nothing follows it, and no
 member is ever told to stop -/
-theorem C18_merge_completion_after_data {α : Type} (n : Nat) (ths : List (Thread (Merge.Loc α) α α)) (h : Merge.Members n false ths) :
-    ∀ s, PReach (Merge.machine α n) (Merge.start n ths) s →
+theorem C18_merge_completion_after_data {α : Type} (n : Nat) (ths : List (Thread (Merge.Loc α) α α)) (h : MergePar.Members n false ths) :
+    ∀ s, PReach (Merge.machine α n) (MergePar.start n ths) s →
       s.obs.termWhileData = false ∧ s.obs.afterTerm = 0 ∧ s.obs.upTerms = 0 :=
-  Merge.merge_par_order n ths h
+  MergePar.merge_par_order n ths h
 
 /-- merge!, no failing member: when every thread has finished, every datum handed to merge has been delivered exactly once (count
 form: the sink has received as many data as the scripts contain) -/
-theorem C18_merge_every_datum_once {α : Type} (n : Nat) (ths : List (Thread (Merge.Loc α) α α)) (h : Merge.Members n false ths) :
-    ∀ s, PReach (Merge.machine α n) (Merge.start n ths) s → (∀ th ∈ s.threads, th.script = [] ∧ th.frame = none) →
-      s.obs.datas.length = Merge.nDataAll ths :=
-  Merge.merge_par_data_done n ths h
+theorem C18_merge_every_datum_once {α : Type} (n : Nat) (ths : List (Thread (Merge.Loc α) α α)) (h : MergePar.Members n false ths) :
+    ∀ s, PReach (Merge.machine α n) (MergePar.start n ths) s → (∀ th ∈ s.threads, th.script = [] ∧ th.frame = none) →
+      s.obs.datas.length = MergePar.nDataAll ths :=
+  MergePar.merge_par_data_done n ths h
 
 /-- combine!, the part that holds for every arity, all scripts and every schedule: greeted at most once, completed at most once,
 never an `Error` -/
-theorem C18_combine_counts_partial {α : Type} (n : Nat) (ths : List (Thread (Combine.Loc α) α (List α))) (h : Combine.Members n ths) :
-    ∀ s, PReach (Combine.machine α n) (Combine.start n ths) s → s.obs.greets ≤ 1 ∧ s.obs.terms ≤ 1 ∧ s.obs.errs = 0 :=
-  Combine.combine_par_counts_partial n ths h
+theorem C18_combine_counts_partial {α : Type} (n : Nat) (ths : List (Thread (Combine.Loc α) α (List α))) (h : CombinePar.Members n ths) :
+    ∀ s, PReach (Combine.machine α n) (CombinePar.start n ths) s → s.obs.greets ≤ 1 ∧ s.obs.terms ≤ 1 ∧ s.obs.errs = 0 :=
+  CombinePar.combine_par_counts_partial n ths h
 
 /-- combine!, the part that FAILS (known finding KF4): "only complete tuples, nothing panics" is false — when two members' first
 data race, `unwrap()` is reached on an incomplete tuple. Kernel-checked witness schedule. -/
 theorem C18_combine_panic_counterexample :
     ∃ s, PReach (Combine.machine Nat 2)
-        (Combine.start 2 [⟨[.srcGreet 0, .srcDown 0 (.data 1)], none⟩, ⟨[.srcGreet 1, .srcDown 1 (.data 2)], none⟩]) s ∧
+        (CombinePar.start 2 [⟨[.srcGreet 0, .srcDown 0 (.data 1)], none⟩, ⟨[.srcGreet 1, .srcDown 1 (.data 2)], none⟩]) s ∧
       s.obs.panics = 1 :=
-  Combine.combine_par_panics
+  CombinePar.combine_par_panics
 
 end Cb.Thm
